@@ -110,6 +110,19 @@ def boolean(rng, d, skel):
     if d <= 0 or r < 0.2:
         skel.append("BOOLEAN")
         return "bo"
+    if r < 0.3:
+        # operands of different type classes: text against number, date against text
+        op = rng.choice(["=", "<>", "<", "<=", ">", ">=", "IS DISTINCT FROM", "IS NOT DISTINCT FROM"])
+        c = rng.choice(NUMC)
+        shape = rng.choice(["col-lit", "lit-col", "text-col", "date-text"])
+        skel.append(f"cmp-mixed:{shape}:{COLS[c].split('(')[0]}")
+        if shape == "col-lit":
+            return f"({c} {op} '3')"
+        if shape == "lit-col":
+            return f"('10' {op} {c})"
+        if shape == "text-col":
+            return f"(s {op} {c})"
+        return f"(da {op} '2020-01-01')"
     if r < 0.55:
         op = rng.choice(["=", "<>", "<", "<=", ">", ">="])
         skel.append("cmp")
